@@ -47,13 +47,17 @@ fn render(e: &CompilerError, src: &str) {
 
 fn run_one(src: &str) -> String {
     let mut status = Vec::new();
-    for ts in [false, true] {
+    // rasn backend, TypeScript backend, rasn backend with every option away from its default
+    for mode in 0..3 {
         let s = src.to_string();
         let r = std::panic::catch_unwind(std::panic::AssertUnwindSafe(move || {
-            let res = if ts {
+            let res = if mode == 1 {
                 Compiler::<TypescriptBackend, _>::new().add_asn_literal(s.clone()).compile_to_string()
-            } else {
+            } else if mode == 0 {
                 Compiler::<RasnBackend, _>::new().add_asn_literal(s.clone()).compile_to_string()
+            } else {
+                let cfg = rasn_compiler::prelude::RasnConfig { opaque_open_types: false, default_wildcard_imports: true, generate_from_impls: true, no_std_compliant_bindings: true, custom_imports: vec!["my::path".into()], type_annotations: vec!["#[derive(Debug)]".into()], ..Default::default() };
+                Compiler::<RasnBackend, _>::new_with_config(cfg).add_asn_literal(s.clone()).compile_to_string()
             };
             match res {
                 Ok(r) => {
@@ -338,6 +342,17 @@ pub fn gen_inputs(cfg: &RunCfg) -> Vec<(String, String)> {
         "Sz ::= OCTET STRING (SIZE (0..170141183460469231731687303715884105727))",
         "Bz ::= BIT STRING { far(170141183460469231731687303715884105727) }",
         "Tz ::= [170141183460469231731687303715884105727] INTEGER",
+        // references that are not type references behind COMPONENTS OF; constraints that are not PER-visible as operands
+        "Gx ::= SEQUENCE { a INTEGER, ..., [[ COMPONENTS OF x.&y ]] }",
+        "Gy ::= SEQUENCE { COMPONENTS OF MY-CLASS.&Type, b BOOLEAN }",
+        "Pv1 ::= INTEGER (SIZE (PATTERN \"x\") ^ 1 | PATTERN \"y\")",
+        "Pv2 ::= IA5String (FROM (PATTERN \"x\") ^ \"a\" | PATTERN \"y\")",
+        "Pv3 ::= OCTET STRING (SIZE (CONSTRAINED BY { }) | 4)",
+        "Pv4 ::= UTF8String (SIZE (1..4) ^ (PATTERN \"a\" | SIZE (2)))",
+        // objects and object sets that refer to each other, entered from outside the cycle",
+        "o1 MY-CLASS ::= { o2 }\no2 MY-CLASS ::= { o3 }\no3 MY-CLASS ::= { o2 }",
+        "C ::= CLASS { &id INTEGER UNIQUE, &Type } WITH SYNTAX { &Type IDENTIFIED BY &id }\nObjs C ::= { { INTEGER (1 ^ 2) IDENTIFIED BY 1 } | { IA5String (SIZE (1..4)) IDENTIFIED BY 2 } }",
+        "IdC ::= CLASS { &id INTEGER UNIQUE, &Type } WITH SYNTAX { &Type IDENTIFIED BY &id }\nObjs IdC ::= { { INTEGER (1 ^ 2) IDENTIFIED BY 1 } | { IA5String (SIZE (1..4)) IDENTIFIED BY 2 } }\nUse ::= SEQUENCE { id IdC.&id ({Objs}), v IdC.&Type ({Objs}{@id}) }",
     ];
     for l in lines.iter().skip(2).filter(|l| !l.starts_with("END")).map(|l| l.to_string()).chain(extra.iter().map(|x| x.to_string())) {
         for hdr in ["AUTOMATIC TAGS", "", "EXPLICIT TAGS EXTENSIBILITY IMPLIED"] {
@@ -356,7 +371,7 @@ pub fn gen_inputs(cfg: &RunCfg) -> Vec<(String, String)> {
     // (1a') permitted alphabets and string values built from two operands of every kind, degenerate ones included
     // (empty strings, empty and one-point ranges, characters of more than one byte), under both set operators and the
     // three spellings; and constraints of every kind directly behind SIZE / FROM
-    let operands = ["\"abc\"", "\"\"", "\"a\"..\"z\"", "\"\"..\"z\"", "\"a\"..\"\"", "\"A\"..\"A\"", "\"Z\"..\"A\"", "\"é\"", "\"а\"..\"я\""];
+    let operands = ["\"abc\"", "\"\"", "\"a\"..\"z\"", "\"\"..\"z\"", "\"a\"..\"\"", "\"A\"..\"A\"", "\"Z\"..\"A\"", "\"é\"", "\"а\"..\"я\"", "\"！\"..\"～\"", "\"😀\"", "\"\u{ffff}\"..\"\u{10000}\""];
     let str_types = ["IA5String", "BMPString", "UTF8String", "PrintableString", "VisibleString"];
     let mut k = 0usize;
     for x in operands {
@@ -387,6 +402,10 @@ pub fn gen_inputs(cfg: &RunCfg) -> Vec<(String, String)> {
                     format!("F ::= UTF8String (FROM (\"{t}\") ^ FROM (\"a\"..\"c\"))"),
                     format!("v UTF8String ::= \"{t}\"\nF ::= INTEGER (v)\nG ::= SEQUENCE {{ a INTEGER DEFAULT v }}"),
                     format!("F ::= UTF8String (PATTERN \"{t}\") (SIZE (\"{t}\"))"),
+                    // syntax errors on, behind and in front of a long line (the excerpt of contextualize shows the lines around)
+                    format!("F ::= UTF8String (\"{t}\") !! oops"),
+                    format!("-- {t}\nF ::= SEQUENCE {{ a INTEGER,, }}\n-- {t}"),
+                    format!("v UTF8String ::= \"{t}\" F ::= SEQUENCE {{ a INTEGER b }}"),
                 ] {
                     out.push(("long-multibyte".into(), format!("Lm-Mod DEFINITIONS AUTOMATIC TAGS ::= BEGIN\n{form}\nH ::= INTEGER (0..7)\nEND\n")));
                 }
